@@ -516,6 +516,23 @@ class World:
                 if mid == 1 and kind != "nadv":
                     self.viol("tokens/unrequested-disclosure", "disclosure to %r not asked for by the user" % (di,))
 
+    def rooted(self, di, t):
+        """token t (as presented by peer di) is validly signed and connected to the peer's genesis through validly
+        signed tokens that peer has presented so far"""
+        p = self.keys[di]
+        toks = self.presented[di]["tok"]
+        genesis, cur, steps = sha3(p), t, 0
+        while steps <= len(toks) + 1:
+            if not self.verify(p, cur[0] + cur[1], cur[2]):
+                return False
+            if cur[0] == genesis:
+                return True
+            cur = toks.get(cur[0])
+            if cur is None:
+                return False
+            steps += 1
+        return False
+
     def oracle_attest(self, di, ab, kind, sender):
         mptr, sg = ab[:32], ab[32:]
         p = self.keys[di] if di is not None else None
@@ -523,10 +540,13 @@ class World:
             self.viol("attest/not-requested-by-subject", "attestation sent to %r on a %s event from %r" % (di, kind, sender))
             return
         toks_m, atts_m = self.last_msg
-        if not all(self.verify(p, t[0] + t[1], t[2]) for t in toks_m) or \
-                not all(self.verify(a[0], a[1], a[2]) for a in atts_m):
-            self.viol("attest/message-not-verified", "attestation sent to peer %d in answer to a message carrying a token "
-                                                     "or an attestation that does not verify" % di)
+        bad_tok = [t for t in toks_m if not self.rooted(di, t)]
+        bad_att = [i for i, a in enumerate(atts_m) if not self.verify(a[0], a[1], a[2])]
+        if bad_tok or bad_att:
+            self.viol("attest/unverified-disclosure",
+                      "attestation sent to peer %d in answer to a disclosure that does not verify: %d of its %d token(s) forged "
+                      "or dangling, attestation(s) %s of %d not signed by the listed authority"
+                      % (di, len(bad_tok), len(toks_m), bad_att, len(atts_m)))
         if not self.verify(self.me, mptr, sg):
             self.viol("attest/bad-signature", "the attestation sent to %d does not verify under the node's key" % di)
         if mptr in self.attested:
@@ -760,7 +780,19 @@ class World:
         else:
             stoks = [toks[i % len(toks)] for i in toksel[1]]
         satts = []
-        if attsel != "none":
+        if isinstance(attsel, list):
+            # ["gen", [[kind, signer], ..]]: attestations over the first selected metadata made on the spot
+            from ipv8.attestation.identity.attestation import Attestation
+            ptr = sha3(smd[0][0] + smd[0][1] + smd[0][2]) if smd else sha3(b"nothing")
+            for akind, signer in attsel[1]:
+                att = Attestation(ptr if akind != "other_ptr" else sha3(b"other" + ptr), private_key=self.nodes[signer].my_peer.key)
+                auth, sg = self.keys[signer], att.signature
+                if akind == "badsig":
+                    sg = bytes([sg[0] ^ 1]) + sg[1:]
+                elif akind == "wrongauth":
+                    auth = self.keys[signer % NPEERS + 1]
+                satts.append([auth, att.metadata_pointer, sg])
+        elif attsel != "none":
             for auth, mptr, sg in rows:
                 if any(sha3(m[0] + m[1] + m[2]) == mptr for m in smd):
                     satts.append([auth, mptr, sg])
@@ -955,7 +987,7 @@ MATRIX = ["ok", "replay", "expired", "boundary", "late_delivery", "wrong_key", "
           "tamper_mdsig", "tamper_mdjson", "trunc_tok", "trunc_md", "trunc_att", "rawjson", "missing_flow",
           "missing_partial", "hash_on_other_subject", "overwrite_reg", "sha1", "two_creds", "multi_subject",
           "forged_outer", "own_attestation_included", "long_chain", "stale_name_rereg", "extra_bad_token",
-          "extra_unchained_token", "md_truthiness"]
+          "extra_unchained_token", "md_truthiness", "mixed_disclosure"]
 
 
 def extra_regs(r, n):
@@ -1055,6 +1087,22 @@ def matrix_case(r, kind, nreg):
     elif kind == "extra_unchained_token":
         core = [k(), ["pself", A, h, name, None], ["pself", A, 7, "x", None], ["pself", A, 8, "y", None],
                 ["disc", A, A, [0], ["idx", [0, 2]], "none", None], ["disc", A, A, [0], ["path"], "none", None]]
+    elif kind == "mixed_disclosure":
+        # a failing element (forged extra token, dangling token, forged attestation at any position) together with
+        # 1..3 valid attestations in some order - in particular a valid one last
+        nvalid = r.choice([1, 2, 3])
+        fail = r.choice(["tok_forged", "tok_dangling", "att_badsig", "att_wrongauth"])
+        signers = [r.choice([A, B, C, D]) for _ in range(nvalid)]
+        atts = [["ok", sg] for sg in signers]
+        toksel, tam = ["path"], None
+        if fail == "tok_forged":
+            toksel, tam = ["all"], ["toksig", r.choice([1, 2])]
+        elif fail == "tok_dangling":
+            toksel = ["idx", [0, 2]]
+        else:
+            atts.insert(r.randrange(len(atts) + (0 if r.random() < 0.6 else 1)), [fail[4:], r.choice([B, C, D])])
+        core = [k(), ["pself", A, h, name, None], ["pself", A, 7, "x", None], ["pself", A, 8, "y", None],
+                ["disc", A, A, [0], toksel, ["gen", atts], tam], ["disc", A, A, [0], ["path"], ["gen", [["ok", D]]], None]]
     elif kind == "md_truthiness":
         reg, ad = r.choice([({}, {"a": "b"}), ({}, {"z": 1}), ({}, None)])
         core = [k(A, h, name, reg), adv(A, h, name, ad), dl]
@@ -1066,6 +1114,31 @@ def matrix_case(r, kind, nreg):
     for e in extra_regs(r, nreg - 1):
         ops.insert(r.randrange(first + 1), e)
     return {"label": "matrix/%s/%d" % (kind, nreg), "ops": ops}
+
+
+def mixed_cases(r):
+    """systematic: a disclosure whose chain and metadata would be attested, combined with ONE failing element (forged
+    extra token, dangling token, attestation with a forged signature / a wrong listed authority at every position)
+    and 1..3 valid attestations; followed by a clean disclosure (attested) and a replay of the failing one"""
+    out = []
+    for nvalid in (1, 2, 3):
+        valid = [["ok", [D, C, A][i]] for i in range(nvalid)]     # A: a key of the subject's own will do
+        variants = [("tok_forged", ["all"], ["toksig", 1], valid), ("tok_forged2", ["all"], ["tokhash", 2], valid),
+                    ("tok_dangling", ["idx", [0, 2]], None, valid)]
+        for bad in ("badsig", "wrongauth"):
+            for pos in range(nvalid + 1):
+                atts = list(valid)
+                atts.insert(pos, [bad, B])
+                variants.append(("att_%s@%d" % (bad, pos), ["path"], None, atts))
+        for tag, toksel, tam, atts in variants:
+            failing = ["disc", A, A, [0], toksel, ["gen", atts], tam]
+            ops = [["known", A, 0, "n0", None], ["pself", A, 0, "n0", None], ["pself", A, 7, "x", None],
+                   ["pself", A, 8, "y", None], failing, ["tick", r.choice([0, 5])],
+                   ["disc", A, A, [0], ["path"], ["gen", valid], None], failing]
+            if r.random() < 0.5:
+                ops.insert(1, ["known", B, 1, "n1", None])
+            out.append({"label": "mixed/%s/%d" % (tag, nvalid), "ops": ops})
+    return out
 
 
 def perm_case(r):
@@ -1257,6 +1330,7 @@ def run(ctx):
         for nreg in (1, 2, 3):
             for _ in range(reps):
                 cases.append(matrix_case(r, kind, nreg))
+    cases += mixed_cases(r)
     for _ in range(50 if ctx.quick else 300):
         cases.append(perm_case(r))
     for _ in range(40 if ctx.quick else 300):
@@ -1320,6 +1394,7 @@ def run(ctx):
                             "Attestations/Metadata rows, pseudonym trees, permissions, chain and consent table must agree "
                             "after every event; the Python oracle states consent / valid-store / permission on the raw "
                             "packets and rows.  Generators: reject matrix (%d kinds) x 1..3 concurrent registrations, "
+                            "disclosures mixing one failing element with 1..3 valid attestations in every position, "
                             "permission boundaries, chain growing after it was opened to a peer, incoming attestations, random "
                             "histories.  A history is distinct by "
                             "its script and non-trivial when a disclosure reached the signing decision (attested or "
